@@ -57,12 +57,12 @@ def gen_script(rng):
         elif r < 0.7:
             ops.append("uuid")
         else:
-            ops.append(["sub", rng.choice([0, 1, 2, -1])])
+            ops.append([rng.choice(["sub", "sub", "sub2"]), rng.choice([0, 1, 2, -1])])
     return ops
 
 
 def script_shape(s):
-    return "".join(o[0] if isinstance(o, str) else "s" for o in s)
+    return "".join(o[0] if isinstance(o, str) else ("s" if o[0] == "sub" else "S") for o in s)
 
 
 def judge_records(records, scripts, app, V, hooks, wit_base):
@@ -89,12 +89,20 @@ def judge_records(records, scripts, app, V, hooks, wit_base):
         per_call = defaultdict(set)
         for seen in attempts.values():
             for rec in seen:
-                if rec[0] == "sub":
-                    per_call[rec[1]].add(rec[2])
+                if rec[0] in ("sub", "sub2"):
+                    per_call[(rec[0], rec[1])].add(rec[2])
+                    want = "leaf" if rec[0] == "sub" else "leaf2"
+                    if len(rec) > 3 and rec[3] != want:
+                        V.append({"sig": "subtask-of-another-task-returned", "what": f"workflow {wid[:8]}: execute_task({want}, {rec[1]}) returned an invocation of task {rec[3]}", "witness": wit_base})
         for x, ids in per_call.items():
             hooks["subtask_launch_counts_checked"] += 1
             if len(ids) > 1:
-                V.append({"sig": "subtask-launched-more-than-once", "what": f"workflow {wid[:8]}: sub-task leaf({x}) was launched {len(ids)} times across executions", "witness": {**wit_base, "ids": sorted(ids)}})
+                V.append({"sig": "subtask-launched-more-than-once", "what": f"workflow {wid[:8]}: sub-task {x} was launched {len(ids)} times across executions", "witness": {**wit_base, "ids": sorted(ids)}})
+        calls = list(per_call.items())
+        for i_ in range(len(calls)):
+            for j_ in range(i_ + 1, len(calls)):
+                if calls[i_][1] & calls[j_][1]:
+                    V.append({"sig": "different-calls-share-one-sub-invocation", "what": f"workflow {wid[:8]}: the calls {calls[i_][0]} and {calls[j_][0]} were handed the same invocation", "witness": wit_base})
     # 3. values of different workflows never mix
     firsts = {}
     for (wid, inv), attempts in by_wf.items():
@@ -107,8 +115,8 @@ def judge_records(records, scripts, app, V, hooks, wit_base):
             ra = [r[1] for r in a if r[0] in ("random", "uuid")]
             rb = [r[1] for r in b if r[0] in ("random", "uuid")]
             common = set(map(str, ra)) & set(map(str, rb))
-            sa = {r[2] for r in a if r[0] == "sub"}
-            sb_ = {r[2] for r in b if r[0] == "sub"}
+            sa = {r[2] for r in a if r[0] in ("sub", "sub2")}
+            sb_ = {r[2] for r in b if r[0] in ("sub", "sub2")}
             if sa & sb_:
                 V.append({"sig": "workflows-share-sub-invocation", "what": f"workflows {wids[i][:8]} and {wids[j][:8]} were handed the same sub-task invocation {sorted(sa & sb_)[0][:8]} (each workflow launches its own)", "witness": wit_base})
             if common:
@@ -151,6 +159,7 @@ def run_sim(case, V, hooks, distinct):
                 app = s.make_app()
                 t = app.task(wf.scripted, max_retries=3)
                 app.task(wf.leaf)
+                app.task(wf.leaf2)
                 for i in range(nwf):
                     roots.append(t(scripts[i], fails[i], f"w{i}"))
                 s.roots = roots
@@ -197,6 +206,7 @@ def run_fork(case, V, hooks, distinct):
             app = make_app("sqlite", db, app_id=app_id, cached_status_time=0.0)
             t = app.task(wf.scripted, max_retries=3)
             app.task(wf.leaf)
+            app.task(wf.leaf2)
             inv = t(script, 1, "fork")
             other = t(gen_script(rng), 0, "other")  # a neighbour workflow executed first in the replaying process
             flush_history(app)
@@ -208,7 +218,7 @@ def run_fork(case, V, hooks, distinct):
                     wf.RECORD.clear(); wf.ATTEMPT.clear()
                     ctx = runner_ctx("W", "forked-worker")
                     capp = make_app("sqlite", db, app_id=app_id, cached_status_time=0.0)
-                    capp.task(wf.scripted, max_retries=3); capp.task(wf.leaf)
+                    capp.task(wf.scripted, max_retries=3); capp.task(wf.leaf); capp.task(wf.leaf2)
                     set_thread_ctx(capp, ctx)
                     for w in list(capp.orchestrator.get_invocations_to_run(1, ctx)):
                         try:
